@@ -26,6 +26,11 @@ VECTORS = [
     ('A ::= SEQUENCE { a BOOLEAN, ..., b BOOLEAN }', 'A', {'a': True, 'b': True}, 'uper', 'c0c0200'.ljust(8, '0')[:8]),
     ('A ::= CHOICE { a BOOLEAN, b NULL }', 'A', ('b', None), 'uper', '80'),
     ('A ::= SEQUENCE OF BOOLEAN', 'A', [True, False, True], 'uper', '03a0'),
+    # 30.5.6 / 30.5.7 alignment thresholds of known-multiplier strings in the ALIGNED variant (b = 8 for IA5String):
+    # fixed size is octet-aligned above 16 bits, variable size from 16 bits on
+    ('A ::= IA5String (SIZE(2))', 'A', 'ab', 'per', '6162'),
+    ('A ::= IA5String (SIZE(1..2))', 'A', 'o', 'per', '006f'),
+    ('A ::= NumericString (SIZE(1..3))', 'A', '12', 'per', '48c0'),
 ]
 
 
@@ -184,6 +189,9 @@ def _vector_asts():
             Member('a', Ty('BOOLEAN'), optional=True), Member('b', I(rng=Rng(0, 3)))])),
         'A ::= CHOICE { a BOOLEAN, b NULL }': mk(Ty('CHOICE', root=[Member('a', Ty('BOOLEAN')), Member('b', Ty('NULL'))])),
         'A ::= SEQUENCE OF BOOLEAN': mk(Ty('SEQUENCE OF', elem=Ty('BOOLEAN'))),
+        'A ::= IA5String (SIZE(2))': mk(Ty('IA5String', size=Rng(2, 2))),
+        'A ::= IA5String (SIZE(1..2))': mk(Ty('IA5String', size=Rng(1, 2))),
+        'A ::= NumericString (SIZE(1..3))': mk(Ty('NumericString', size=Rng(1, 3))),
     }
 
 
